@@ -55,15 +55,18 @@ def random_uop(rng, ports, dup=False):
 
 
 def random_model(rng, n_forms=6, n_ports=None, max_uops=4, alternatives=False, dup=False, zero_forms=True):
-    """Synthetic port model.  Zero-throughput forms have no micro-ops (as in the shipped models: jumps),
+    """Synthetic port model.  Zero-throughput forms (not summed into the totals) with and without micro-ops,
     every other form has throughput > 0."""
     pool = rng.choice(PORT_NAME_POOLS)
     n_ports = n_ports or rng.randint(2, 8)
     ports = pool[:n_ports]
     forms = []
     for i in range(n_forms):
-        if zero_forms and rng.random() < 0.1:
-            forms.append({"name": mnemonic(i), "pp": [], "tp": 0.0, "lat": 0})
+        if zero_forms and rng.random() < 0.15:
+            # throughput 0.0: the line is shown but not summed.  Most shipped forms of this kind (jumps) carry no
+            # micro-ops, but some do (zen3: `jne` with [[1, ['6', '10']]]), so both kinds are generated
+            zpp = [] if rng.random() < 0.4 else [random_uop(rng, ports, False) for _ in range(rng.randint(1, 2))]
+            forms.append({"name": mnemonic(i), "pp": zpp, "tp": 0.0, "lat": 0})
             continue
         nu = rng.randint(1, max_uops)
         pp = [random_uop(rng, ports, dup) for _ in range(nu)]
